@@ -19,6 +19,7 @@ type ContentionOpts struct {
 	Skipped   bool // pre-place the outputs of some tasks
 	Streaming bool // add one streaming producer/consumer pair
 	CoresFn   func(i int) int
+	Prepend   bool // some command processes get a Prepend string (the documented way to wrap commands: srun, nice, env)
 }
 
 // Contention builds a workflow in which many tasks of different core counts
@@ -45,6 +46,9 @@ func Contention(rng *rand.Rand, name string, o ContentionOpts) (*spec.Spec, vpro
 		}
 		pr := &spec.Proc{Name: pn, Kind: kind, Cores: cores,
 			Cmd: spec.BuildCmd(pn, []spec.PortDecl{{Name: "in"}}, []spec.PortDecl{{Name: "out"}}, nil, nil, nil)}
+		if o.Prepend && kind == spec.KCmd && rng.Intn(2) == 0 {
+			pr.Prepend = "env VERIF_WRAPPED=" + pn
+		}
 		s.Procs = append(s.Procs, pr)
 		s.Conns = append(s.Conns, &spec.Conn{From: "src.out", To: pn + ".in"})
 		for i := 0; i < o.TasksPer; i++ {
